@@ -22,55 +22,6 @@ func (ex *Exec) spawn(st *State, fnv Value, args []Value) {
 	ex.pushFrame(st, th, cl.Fn, args, cl.Free, nil)
 }
 
-func (ex *Exec) runnable(st *State) []int {
-	var out []int
-	for i, t := range st.threads {
-		if !t.done && !t.blocked {
-			out = append(out, i)
-		}
-	}
-	return out
-}
-
-// schedule is called when the current thread cannot continue (exit/blocked).
-func (ex *Exec) schedule(st *State) {
-	r := ex.runnable(st)
-	if len(r) == 0 {
-		alldone := true
-		for _, t := range st.threads {
-			if !t.done {
-				alldone = false
-			}
-		}
-		if alldone {
-			ex.endPath(st, "done")
-			return
-		}
-		// deadlock
-		m := st.model
-		if m == nil {
-			_, m = ex.sol.Check(st.pc, true, nil)
-		}
-		if m != nil {
-			ex.rep.Asserts++
-			ex.recordViolation(st, "deadlock", "all threads blocked", "deadlock", m)
-		}
-		ex.endPath(st, "deadlock")
-		return
-	}
-	st.cur = r[0]
-}
-
-func (ex *Exec) mutexOp(st *State, th *Thread, f *Frame, name string, args []Value, call *ssa.Call, isDefer bool) []*State {
-	if len(st.threads) == 1 {
-		ex.rep.Stubs["sync.Mutex (single thread: no-op)"] = true
-		ex.setResult(f, call, isDefer, nil)
-		return nil
-	}
-	unsupported("mutex with threads")
-	return nil
-}
-
 func (ex *Exec) atomicOp(st *State, th *Thread, f *Frame, fn *ssa.Function, full string, args []Value, call *ssa.Call, isDefer bool) ([]*State, bool) {
 	name := lastName(full)
 	if len(fn.Blocks) > 0 && !strings.HasPrefix(full, "sync/atomic.") {
@@ -130,13 +81,25 @@ func (ex *Exec) chanSend(st *State, th *Thread, f *Frame, x *ssa.Send) []*State 
 		ex.doPanic(st, "send on closed channel")
 		return nil
 	}
+	if th.ackChan != 0 {
+		// rendezvous completed: the receiver has taken the value
+		th.ackChan = 0
+		f.ip++
+		return nil
+	}
 	if len(co.Buf) < co.Cap {
 		nc := &ChanObj{Buf: append(append([]Value{}, co.Buf...), ex.operand(st, f, x.X)), Cap: co.Cap}
 		st.heap[ch.Obj] = nc
 		f.ip++
 		return nil
 	}
-	unsupported("blocking send (channel full) in sequential mode")
+	if co.Cap == 0 && len(co.Buf) == 0 && len(st.threads) > 1 {
+		// unbuffered: hand the value over and wait until it has been received
+		st.heap[ch.Obj] = &ChanObj{Buf: []Value{ex.operand(st, f, x.X)}, Cap: 0}
+		th.ackChan = ch.Obj
+		return nil
+	}
+	unsupported("blocking send with no other thread able to receive")
 	return nil
 }
 
